@@ -53,6 +53,13 @@ func isNoopCall(name string) bool {
 			return true
 		}
 	}
+	if strings.HasPrefix(name, "invoke ") {
+		for _, p := range []string{"github.com/prometheus/", "go.uber.org/zap", "go.opencensus.io/"} {
+			if strings.Contains(name, p) {
+				return true
+			}
+		}
+	}
 	return false
 }
 
@@ -61,7 +68,7 @@ var purePrefixes = []string{
 	"math::", "math/bits::", "strconv::", "strings::", "bytes::", "unicode::", "unicode/utf8::", "time::", "errors::", "fmt::Errorf", "fmt::Sprintf", "fmt::Sprint",
 	"sort::Search", "slices::Contains", "slices::Index", "cmp::", "path/filepath::", "path::", "encoding/binary::", "unsafe::", "hash/", "math/rand::", "math/rand/v2::",
 	"github.com/valyala/fastrand::", "os::IsNotExist", "os::IsExist", "io::", "context::", "google.golang.org/grpc/status::", "google.golang.org/grpc/codes::",
-	"google.golang.org/protobuf/types/known/", "go.uber.org/multierr::", "go.uber.org/atomic::",
+	"google.golang.org/protobuf/types/known/", "go.uber.org/multierr::", "go.uber.org/atomic::", "github.com/c2h5oh/datasize::",
 }
 
 func isPureCall(name string) bool {
@@ -168,7 +175,7 @@ func (s *State) doCall(call *ssa.Call, cc *ssa.CallCommon) ([]*State, bool) {
 		s.runGhost(fr, fmt.Sprintf("after %s#%d", anchorName, occ))
 		return nil, false
 	}
-	if len(fn.Blocks) > 0 && fr.Depth < 8 && (c.loopInfo(fn) == nil || len(c.loopInfo(fn).loops) == 0) && !c.isRecursive(fn, fr) {
+	if len(fn.Blocks) > 0 && fr.Depth < 8 && c.inlinable(fn) && (c.loopInfo(fn) == nil || len(c.loopInfo(fn).loops) == 0) && !c.isRecursive(fn, fr) {
 		// inline
 		nf := c.newFrame(fn, fr)
 		nf.CallIns = call
@@ -341,14 +348,14 @@ func (s *State) contractCall(call *ssa.Call, sp *FuncSpec, fn *ssa.Function, sig
 	}
 	snap := s.snapshot()
 	wmBefore := s.WM
+	// callee may allocate: whatever it leaves in the modified locations or returns may be new
+	nw := s.freshConst("WM", "Int")
+	s.assert(fmt.Sprintf("(>= %s %s)", nw, s.WM))
+	s.WM = nw
 	// frame
 	for _, m := range sp.Modifies {
 		s.havocLocation(pre, m, sp)
 	}
-	// callee may allocate
-	nw := s.freshConst("WM", "Int")
-	s.assert(fmt.Sprintf("(>= %s %s)", nw, s.WM))
-	s.WM = nw
 	// results
 	s.bindFreshResult(call, "r_"+sanitize(short))
 	post := mkEnv(s.Heap, s.Cells, s.Ghost)
@@ -380,6 +387,8 @@ func (s *State) contractCall(call *ssa.Call, sp *FuncSpec, fn *ssa.Function, sig
 		}
 		s.assert(t)
 	}
+	// a contradictory callee contract would make everything after the call vacuous
+	c.Obls = append(c.Obls, &Obligation{Name: fmt.Sprintf("%s/vac-call@%s#%d", c.Key, short, occ), Kind: "vac", Func: c.Key, Desc: "assumptions still satisfiable after assuming the contract of " + short, Pos: c.posOf(call.Pos()), Path: s.Path, Goal: "false", ExpectSat: true, PathID: s.PathID})
 	if sp.Trusted {
 		c.assume("trusted contract: " + sp.Pkg + "::" + sp.Name + strings.Join(sp.Notes, "; "))
 	} else if strings.HasSuffix(sp.File, ".spec") {
@@ -767,4 +776,11 @@ func (s *State) sortSearch(call *ssa.Call, args []Value) ([]*State, bool) {
 	})
 	next, _ := stage2(s1)
 	return append(next, s), true
+}
+
+// inlinable: only code of the repository itself (and closures defined in it) is ever inlined; library code is
+// represented by contracts (lib/*.spec), the pure-call list, or treated as unknown.
+func (c *Ctx) inlinable(fn *ssa.Function) bool {
+	p := c.pkgOf(fn)
+	return p != nil && (p.Path() == modPath || strings.HasPrefix(p.Path(), modPath+"/"))
 }
